@@ -1779,7 +1779,7 @@ KNOWN_PREDICATES = {
 # SUBCHECKS-FOOTER
 # measured per case (loaded machine): tables 0.09 s, endtoend 0.41 s, json 0.09 s -> quick ~ 440 cpu-s
 SUBCHECKS = [
-    SubCheck('tables', lambda: TABLES, run_tables, quick=3000, thorough=53180),
-    SubCheck('endtoend', lambda: ENDTOEND, run_endtoend, quick=240, thorough=4250),
-    SubCheck('json', lambda: JSONSPEC, run_json, quick=800, thorough=14180),
+    SubCheck('tables', lambda: TABLES, run_tables, quick=3000, thorough=26590),
+    SubCheck('endtoend', lambda: ENDTOEND, run_endtoend, quick=240, thorough=2120),
+    SubCheck('json', lambda: JSONSPEC, run_json, quick=800, thorough=7090),
 ]
